@@ -15,6 +15,7 @@ def run(facts, tier):
     obs, rules = [], []
     for name, f, mn, text in (
         ("ebpps bookkeeping", S.ebpps, 12, "weight validation first; new cumulative weight / maximum weight / rho = min(1/wt_max, k/cum_wt) computed from the old state and stored unconditionally with n; merge adds n and cumulative weight, keeps the larger maximum weight and the smaller k, always replays the lighter sketch into the heavier; the sample is every full item plus the partial item with probability frac(c)"),
+        ("merge decisions", S.ebpps_merge_decisions, 1, "the three random decisions of ebpps_sample::merge (which partial item is promoted / kept, with which closed-form probability) equal the reviewed ones"),
         ("partial shuffle", S.partial_shuffle, 1, "the partial Fisher-Yates pass of subsample() draws the partner of position i from the positions not yet fixed: i + random(len - i)"),
         ("reset completeness", lambda fa: c19_rules.reset_completeness(fa, ['ebpps_sketch', 'ebpps_sample']), 6, "every field a mutator modifies is re-initialised by reset() (reviewed exceptions: scratch sample, configured k)"),
         ("emptiness predicate support", lambda fa: predicates.obligations(fa, ['ebpps_sketch']), 1, "is_empty keeps its reviewed support"),
